@@ -1,8 +1,9 @@
 package main
 
 func init() {
+	few := []string{"GOMAXPROCS=2"} // see plan_c09.go
 	plans["C10"] = Plan{Pkg: pkg("C10"), Steps: []Step{
-		{Run: "TestReplayServer", Quick: 1200, Thorough: 40000, QShards: 12, TShards: 16},
-		{Run: "TestReplayClient", Quick: 1200, Thorough: 40000, QShards: 12, TShards: 16},
+		{Run: "TestReplayServer", Quick: 1600, Thorough: 40000, QShards: 16, TShards: 16, Env: few},
+		{Run: "TestReplayClient", Quick: 1600, Thorough: 40000, QShards: 16, TShards: 16, Env: few},
 	}}
 }
